@@ -780,6 +780,12 @@ func (m *MapPollard) undoDeletion(proof Proof, hashes []Hash) error {
 
 		// Since we're full, we can just build the proofs.
 		proof.Proof = make([]Hash, len(proofPos))
+	} else {
+		// The hashes that we already have are written into the proof below.
+		// Do that on a copy as the slice belongs to the caller.
+		proofHashes := make([]Hash, len(proof.Proof))
+		copy(proofHashes, proof.Proof)
+		proof.Proof = proofHashes
 	}
 
 	for i := range proofPos {
